@@ -120,10 +120,14 @@ RefStep(s, g) ==
          [] OTHER -> Reject
 
 \* ---------------------------------------------------------------- goals
-EvTab == [T \in NumT |-> [e \in D2(T) |-> <<NatEv(e), IntEv(e), RealEv(e)>>]]
-EqByModel(T, l, r) == LET a == EvTab[T][l] b == EvTab[T][r] IN \E i \in 1..3 : ~RIsOvf(a[i]) /\ a[i] = b[i]
-GoalsA == UNION { UNION { { Rel(rel, T, l, r) : rel \in Rels, r \in Rhs(T) } : l \in D2(T) \cup Casts(T) } : T \in NumT }
-GoalsB == UNION { UNION { { Rel("equals", T, l, r) : r \in { x \in D2(T) : FullEq \/ EqByModel(T, l, x) } } : l \in D2(T) } : T \in NumT }
+CastRels == IF FullEq THEN Rels ELSE {"equals", "less"}
+GoalsA == UNION { UNION { { Rel(rel, T, l, r) : rel \in Rels, r \in Rhs(T) } : l \in D2(T) } : T \in NumT }
+          \cup UNION { UNION { { Rel(rel, T, l, r) : rel \in CastRels, r \in Rhs(T) } : l \in Casts(T) } : T \in NumT }
+\* equations between two compound terms: all of them (FullEq), or those that SOME evaluator model equates at SOME type
+\* (these are the goals a type-blind step would accept: the interesting ones)
+WithEv(T) == { <<e, <<NatEv(e), IntEv(e), RealEv(e)>>>> : e \in D2(T) }
+EqByModel(a, b) == \E i \in 1..3 : ~RIsOvf(a[i]) /\ a[i] = b[i]
+GoalsB == UNION { { Rel("equals", T, pq[1][1], pq[2][1]) : pq \in { x \in WithEv(T) \X WithEv(T) : FullEq \/ EqByModel(x[1][2], x[2][2]) } } : T \in NumT }
 GoalsN == { Not(g) : g \in { x \in GoalsA : x[3][2] \in { Num(ArgT(x), 0), Num(ArgT(x), 2) } /\ x[3][1] \in D2(ArgT(x)) } }
 Goals == GoalsA \cup GoalsB \cup GoalsN
 
@@ -143,18 +147,19 @@ Spec == Init /\ [][Next]_vars
 \* ---------------------------------------------------------------- invariants
 TypeOK == step \in ModelSteps \cup {"-"} /\ out[1] \in BOOLEAN
 \* the meaning is total on the universe: every goal is true or false
-ValTotal == Truth(goal) \in {"T", "F"}
+ValTotal == step = "-" => Truth(goal) \in {"T", "F"}
 \* THE property at design level
 Sound == out[1] => Truth(out[2]) = "T"
 \* the evaluator of type T agrees with the meaning on terms of type T (whenever it returns at all)
 Core(g) == Strip(g)
-EvAgrees == LET c == Core(goal)  T == ArgT(c) IN
+EvAgrees == step = "-" =>
+            LET c == Core(goal)  T == ArgT(c) IN
             \A i \in 1..2 : LET v == Ev(T, c[3][i]) IN RIsOvf(v) \/ (CVal(c[3][i])[1] = T /\ Q(CVal(c[3][i])) = v)
 \* the library's defining equations hold for the meaning (examples: truncation, division, DIV/MOD, powers)
 RECURSIVE Subterms(_)
 Subterms(e) == {e} \cup UNION { Subterms(e[3][i]) : i \in 1..Len(e[3]) }
 Max2(a, b) == IF RCmp(a, b) = -1 THEN b ELSE a
-Laws == \A e \in Subterms(goal) :
+Laws == step = "-" => \A e \in Subterms(goal) :
           LET v == Q(CVal(e))  a == IF Len(e[3]) >= 1 THEN Q(CVal(e[3][1])) ELSE <<0, 1>>  b == IF Len(e[3]) >= 2 THEN Q(CVal(e[3][2])) ELSE <<0, 1>> IN
           /\ e[1] = "minus" /\ e[2][1] = "nat" => RAdd(v, b) = Max2(a, b) /\ v[1] >= 0                 \* truncated subtraction
           /\ e[1] = "minus" /\ e[2][1] # "nat" => RAdd(v, b) = a
